@@ -36,7 +36,8 @@ fn check(c: &Case, obs: &mut Obs) -> Result<(), Fail> {
     let comp = if c.probe_mem { "mem" } else { "steps" };
     obs.class(format!("{}:{enc}:{comp}:{}", era.name(), if total > limit { "over" } else if total == limit { "at" } else { "under" }));
     if total > limit {
-        pv_ensure!(r != run::Outcome::Accepted, format!("over-budget-accepted:{}:{enc}", era.name()),
+        let place = if f.script_by_reference { "script-by-reference" } else { "script-in-witness-set" };
+        pv_ensure!(r != run::Outcome::Accepted, format!("over-budget-accepted:{}:{enc}:{place}", era.name()),
             "redeemers ask for {total} {comp} units, the limit is {limit}, yet the transaction is accepted");
         obs.nontrivial();
     } else {
